@@ -474,7 +474,10 @@ def r5(p, rep):
         else:
             ok = True
             if wrapped == "_fixed_arity":
-                n = arg.args[1].value if len(arg.args) > 1 and isinstance(arg.args[1], ast.Constant) else None
+                nv = arg.args[1] if len(arg.args) > 1 else next((k.value for k in arg.keywords if k.arg in ("n", "arity", "num_args", "nargs")), None)
+                if nv is None and len(arg.keywords) == 1 and len(arg.args) == 1:
+                    nv = arg.keywords[0].value  # the wrapper's only other parameter, by keyword
+                n = nv.value if isinstance(nv, ast.Constant) else None
                 ok = n == NUMPY_POSITIONAL_OUT[name]
             rep.add("C09.R5", key, r.site, ok, f"np.{name} wrapped by {wrapped}: {ARITY_WRAPPERS[wrapped]}" if ok else f"np.{name} has {NUMPY_POSITIONAL_OUT[name]} inputs but _fixed_arity allows {n}")
     # the wrapper itself: the wrapped op is only called when exactly `n` operands were given, otherwise it raises.
